@@ -17,6 +17,7 @@ From RU Require Import Model.FormUrlencoded Model.QueryPairs Proofs.C02_Form Pro
 From RU Require Proofs.C15_Ser.
 From RU Require Import Proofs.C02_SetHostFrame Proofs.C02_SetHostCanon Proofs.C02_SetScheme Proofs.C02_PathSetter Proofs.C02_SetPath Proofs.C02_Reach4.
 From RU Require Import Proofs.C02_Stmt4 Proofs.C02_QHost Proofs.C02_SetHostNone Proofs.C02_SetPathNoAuth Proofs.C02_SetPathOpaque Proofs.C02_Reach5.
+From RU Require Import Proofs.C02_JoinAbs Proofs.C02_JoinPath Proofs.C02_Segments Proofs.C02_SegmentsCanon Proofs.C02_Reach6.
 Open Scope string_scope.
 Open Scope N_scope.
 Open Scope list_scope.
@@ -1213,6 +1214,141 @@ Example C02_reach_partial4_inhabited :
   /\ match m_hist "a://h?q" [OSetHost None] with Some _ => false | None => true end = true
   /\ match m_hist_r "a://h?q" [OSetHost None] with Some u => list_eqb (ser u) (B "a:?q") && m_fix u | None => false end = true.
 Proof. exact reach4_example. Qed.
+
+(* ---------- N. joins through every arm of the relative state, base-ignoring absolute references, path_segments_mut ---------- *)
+(* N.1  A reference with its own scheme that is not file, and that is non-special, or special but other than the base's
+   scheme or followed by two or more slashes / back-slashes (abs_ref, computable): the base is not consulted - for
+   EVERY base record (no premise on it) - so the result is canonical by C02_parse_Canon. *)
+Theorem C02_join_abs_eq : forall dbg hp hpo hd ovr b input, abs_ref b input = true ->
+  parse_url dbg hp hpo hd ovr (Some b) input = parse_url dbg hp hpo hd ovr None input.
+Proof. exact join_abs_eq. Qed.
+Print Assumptions C02_join_abs_eq.
+
+Theorem C02_join_abs_Canon : forall dbg hp hpo hd, HostRT hp hpo hd -> forall ovr b input u,
+  host_above hp hpo hd -> usv_list input -> abs_ref b input = true -> (ovr = None \/ special_input input = false) ->
+  parse_url dbg hp hpo hd ovr (Some b) input = POk u -> Canon hp hpo hd u.
+Proof. exact join_abs_Canon. Qed.
+Print Assumptions C02_join_abs_Canon.
+
+(* N.2  EVERY reference without a scheme (rel_ref, computable) against a canonical base: empty / fragment-only /
+   query-led (C02_join_tail_Canon) and the three path arms - scheme-relative ("//..."; "\\" too for a special base),
+   path-absolute, path-relative (pop of the base's last segment, dot segments in every spelling, back-slashes for special
+   bases) - incl. bases without authority serialised with the "/." marker: the marker is kept when the new path starts
+   with "//" and removed otherwise (C02_wqf_noauth_marker).  Same premise on the encoding override as for tail joins. *)
+Theorem C02_join_rel_Canon : forall dbg hp hpo hd, HostRT hp hpo hd -> host_above hp hpo hd -> forall ovr b input u,
+  Canon hp hpo hd b -> usv_list input -> rel_ref input = true ->
+  (ovr = None \/ st_is_special (scheme_type_of (b_scheme b)) = false) ->
+  parse_url dbg hp hpo hd ovr (Some b) input = POk u -> Canon hp hpo hd u.
+Proof. exact join_rel_Canon. Qed.
+Print Assumptions C02_join_rel_Canon.
+
+Theorem C02_join_rel_fixpoint : forall dbg hp hpo hd, HostRT hp hpo hd -> host_above hp hpo hd -> forall ovr b input u,
+  Canon hp hpo hd b -> usv_list input -> rel_ref input = true ->
+  (ovr = None \/ st_is_special (scheme_type_of (b_scheme b)) = false) ->
+  parse_url dbg hp hpo hd ovr (Some b) input = POk u ->
+  Fixpoint_of_reparse dbg hp hpo hd u /\ wf_b u = true /\ ascii (ser u).
+Proof. exact join_rel_fixpoint. Qed.
+Print Assumptions C02_join_rel_fixpoint.
+
+Theorem C02_wqf_noauth_marker : forall ovr sch T rest, UrlRecord.starts_with [47] T = true ->
+  let a := nlen (sch ++ [58]) in
+  with_query_and_fragment ovr CUrlParser STNotSpecial (nlen sch) a a a HI_None None (nlen ((sch ++ [58]) ++ [47; 46]))
+    (((sch ++ [58]) ++ [47; 46]) ++ T) rest
+  = (' (s2, qs, fs) <~ parse_query_and_fragment ovr CUrlParser STNotSpecial (nlen sch) (noauth_pre sch T) rest ;;
+     POk (mkUrl s2 (nlen sch) a a a HI_None None (a + nlen (marker_of T)) qs fs)).
+Proof. exact wqf_noauth_marker_eq. Qed.
+Print Assumptions C02_wqf_noauth_marker.
+
+Example C02_join_path_inhabited :
+  ex_join "http://h/p/q?q#f" "../x y" "http://h/x%20y" = true
+  /\ ex_join "http://h/p/q?q#f" "\y/./z?k" "http://h/y/z?k" = true
+  /\ ex_join "http://h/p/q?q#f" "/\h2/z" "http://h2/z" = true
+  /\ ex_join "http://h/p/q?q#f" "a/../b/%2e#g" "http://h/p/b/#g" = true
+  /\ ex_join "a://h" "x/y" "a://h/x/y" = true
+  /\ ex_join "a://h/p" "//h2" "a://h2" = true
+  /\ ex_join "a:/p/q" "../../..//x" "a:/.//x" = true
+  /\ ex_join "a:/.//p/q" "r" "a:/.//p/r" = true
+  /\ ex_join "a:/.//p/q" "/r" "a:/r" = true
+  /\ ex_join "a:/.//p/q" "../../r" "a:/r" = true.
+Proof. exact join_path_examples. Qed.
+
+(* N.3  L2 for Url::path_segments_mut sessions (open; any sequence of clear / pop / pop_if_empty / push / extend with
+   arbitrary &str arguments; drop) on EVERY canonical record without the "/." marker (with the marker: class F-C03-5):
+   the result is canonical.  Covers finding F-C06-7: push(".<TAB>.") is treated as ".." by the path state and pops a
+   segment - the result is still canonical (hence a fixpoint), which is all that is claimed here. *)
+Theorem C02_psm_session_Canon : forall dbg hp hpo hd, HostRT hp hpo hd -> forall u ops u' status,
+  Canon hp hpo hd u -> Forall psm_op_ok ops -> has_marker u = false ->
+  path_segments_session dbg u ops = Some (u', status) -> nlen (ser u') <= U32_MAX_P -> Canon hp hpo hd u'.
+Proof. exact psm_session_Canon. Qed.
+Print Assumptions C02_psm_session_Canon.
+
+(* the invariant of the serialization during a session, per operation (F = everything in front of the path) *)
+Theorem C02_psm_extend_shape : forall dbg st F, st_is_file st = false -> forall segments X s', PI st X ->
+  Forall usv_list segments -> psm_extend_loop dbg st (nlen F) (F ++ X) segments = Some s' ->
+  exists X', s' = F ++ X' /\ PI st X'.
+Proof. exact pi_extend. Qed.
+Print Assumptions C02_psm_extend_shape.
+
+(* N.4  C02_statement4 restricted to the four canonical classes: histories of parse (no base, non-file scheme; special
+   schemes without encoding override) ;; joins with every scheme-less reference and with base-ignoring absolute
+   references ;; EVERY operation of the setter model (all 19 of C02_Reach.op, path_segments_mut sessions included) outside
+   known_step3 ;; query_pairs_mut sessions.  Still missing for C02_statement4: the file scheme (class (v): parse, join
+   bases and references, every mutator on file records), an encoding override on special schemes (parse and joins), and
+   joins whose reference has the special scheme of the base followed by fewer than two slashes ("http:x" against an
+   http base). *)
+Theorem C02_reach_partial5 : forall dbg hp hpo hd, HostOK2 hp hpo hd -> host_nonempty hp hpo -> forall u,
+  ReachC5 dbg hp hpo hd u -> Fixpoint_of_reparse dbg hp hpo hd u /\ wf_b u = true /\ ascii (ser u).
+Proof. exact reach_partial5. Qed.
+Check C02_reach_partial5 : forall dbg hp hpo hd, HostOK2 hp hpo hd -> host_nonempty hp hpo -> forall u,
+  ReachC5 dbg hp hpo hd u ->
+  parse_url dbg hp hpo hd None None (utf8_lossy (ser u)) = POk u /\ wf_b u = true /\ ascii (ser u).
+Print Assumptions C02_reach_partial5.
+
+Theorem C02_reach_partial5_in_statement : forall dbg hp hpo hd, HostOK2 hp hpo hd -> host_nonempty hp hpo -> forall u,
+  ReachC5 dbg hp hpo hd u -> Reachable4 dbg hp hpo hd u.
+Proof. exact ReachC5_Reachable4. Qed.
+Print Assumptions C02_reach_partial5_in_statement.
+
+Theorem C02_reach_partial5_extends : forall dbg hp hpo hd u, ReachC4 dbg hp hpo hd u -> ReachC5 dbg hp hpo hd u.
+Proof. exact ReachC4_C5. Qed.
+Print Assumptions C02_reach_partial5_extends.
+
+Theorem C02_reach_partial5_absolute : forall dbg hp hpo hd, HostOK2 hp hpo hd -> host_nonempty hp hpo -> forall u b,
+  ReachC5 dbg hp hpo hd u -> parse_url dbg hp hpo hd None (Some b) (utf8_lossy (ser u)) = POk u.
+Proof. exact reach5_absolute. Qed.
+Print Assumptions C02_reach_partial5_absolute.
+
+Theorem C02_reach_partial5_model : forall dbg idna, IdnaOK idna -> forall u,
+  ReachC5 dbg (host_parse idna) host_parse_opaque host_display u ->
+  Fixpoint_of_reparse dbg (host_parse idna) host_parse_opaque host_display u /\ wf_b u = true /\ ascii (ser u).
+Proof. exact reach_partial5_model. Qed.
+Print Assumptions C02_reach_partial5_model.
+
+(* one step with ANY operation of the model on a canonical record outside the known step classes *)
+Theorem C02_step_Canon : forall dbg hp hpo hd, HostOK2 hp hpo hd -> host_nonempty hp hpo -> forall u o u',
+  Canon hp hpo hd u -> op_args_ok o -> known_step3 dbg hp hpo hd u o = false ->
+  apply_op dbg hp hpo hd u o = Some u' -> nlen (ser u') <= U32_MAX_P -> Canon hp hpo hd u'.
+Proof. exact canon_step_all. Qed.
+Print Assumptions C02_step_Canon.
+
+Example C02_reach_partial5_inhabited :
+  match m_hist "http://h/a/b?q#f" [OPathSegments [PPush [46; 9; 46]; PPush (B "x/y")]] with
+  | Some u => list_eqb (ser u) (B "http://h/a//x%2Fy?q#f") && m_fix u | None => false end = true
+  /\ match m_hist "a:/p/q" [OPathSegments [PPop; PPop; PPush []; PPush (B "z w")]] with
+     | Some u => list_eqb (ser u) (B "a:/z%20w") && m_fix u | None => false end = true
+  /\ match m_hist "a://h" [OPathSegments [PExtend [B "a"; B ".."; B "%2e"; []]; PPopIfEmpty]] with
+     | Some u => list_eqb (ser u) (B "a://h/a/%252e") && m_fix u | None => false end = true
+  /\ match m_join "http://h/a/b?q#f" "../c d/./e?k" with
+     | Some u => list_eqb (ser u) (B "http://h/c%20d/e?k") && m_fix u | None => false end = true
+  /\ match m_join "http://h/a/b?q#f" "https:x" with
+     | Some u => list_eqb (ser u) (B "https://x/") && m_fix u | None => false end = true
+  /\ match m_join "http://h/a/b?q#f" "zz:/.//p" with
+     | Some u => list_eqb (ser u) (B "zz:/.//p") && m_fix u | None => false end = true
+  /\ rel_ref (B "../c d/./e?k") = true
+  /\ match parse_url true mhp host_parse_opaque host_display None None (B "http://h/a/b?q#f") with
+     | POk bu => abs_ref bu (B "https:x") && abs_ref bu (B "zz:/.//p") && negb (abs_ref bu (B "http:x")) && abs_ref bu (B "http://x")
+     | _ => false end = true.
+Proof. exact reach5_example. Qed.
 
 (* ---------- F. every excluded class contains a history that is not a fixpoint ---------- *)
 Theorem C02_F_C03_5_refuted :
